@@ -158,6 +158,12 @@ func c20Gen(r *sim.Rand, tier string) *sim.Case {
 			}
 			return sim.Op{K: "byip", A: []int64{int64(cl), int64(r.N(n))}}
 		}
+		between = func() []sim.Op {
+			if r.P(25) {
+				return []sim.Op{{K: "update", A: []int64{0, int64(r.N(8)), int64(r.N(2)), int64(r.N(n))}}}
+			}
+			return nil
+		}
 	case "allocstore":
 		gen = func(cl int) sim.Op {
 			switch r.Weighted(10, 5, 2, 2) {
@@ -361,10 +367,11 @@ func init() {
 			"subscriber.Manager (CreateSession, AssignAddress, TerminateSession, lookups by id / MAC / IP)", "ebpf.MakeCircuitIDKey, ebpf.HashCircuitID"},
 		Stub: []string{"NTE store behind LoadFromStore/SyncToNTE (in-memory map of nexus.NTE records)", "address allocator behind subscriber.Manager (lowest-free model over 1-3 addresses)",
 			"fixed-key circuit-id map (harness map keyed by the real MakeCircuitIDKey/HashCircuitID; kernel maps absent)", "callers (harness tasks)"},
-		Rule: "cases: one component per run; 3-16 rounds of 1-4 callers x 0-2 ops over <=5 NTEs/subscribers/MACs, tag ranges 1-2 outer x 1-3 inner, stored-pair loads (restart / reload, incl. conflicting records), two sessions per MAC, id wrap-around (65535 create/remove pairs), cleanup under virtual time; non-trivial = >=3 completed operations and (a fault fired or >2 context switches); distinct = distinct (case hash, schedule fingerprint)",
+		Rule: "cases: one component per run; 3-16 rounds of 1-4 callers x 0-2 ops over <=5 NTEs/subscribers/MACs, tag ranges 1-2 outer x 1-3 inner, stored-pair loads (restart / reload, incl. conflicting records), two sessions per MAC (PPPoE session table only; state.Store records keep distinct MACs and addresses, key changes through Update), id wrap-around (65535 create/remove pairs), cleanup under virtual time; non-trivial = >=3 completed operations and (a fault fired or >2 context switches); distinct = distinct (case hash, schedule fingerprint)",
 		QuickRuns:    12000,
 		ThoroughRuns: 1500000,
-		Assumptions: []string{"a tag value of 0 is never offered (0 = no tag)", "an operation may fail at any time unless a released key would have satisfied it; a failed operation leaves other subscribers' mappings unchanged",
+		Assumptions: []string{"a tag value of 0 is never offered (0 = no tag)",
+			"state.Store: live sessions (leases) never share a MAC or an address - its by-MAC / by-IP indexes are single-valued by design, so giving a key of a live record to a second record (create or update) is a caller error outside the property; two sessions from one MAC are exercised on pppoe.SessionManager only", "an operation may fail at any time unless a released key would have satisfied it; a failed operation leaves other subscribers' mappings unchanged",
 			"with several live sessions for one MAC a by-MAC lookup may return any of them, but not none", "session expiry is only judged at least 0.5 s away from the timeout boundary",
 			"linearizability check capped by a model-step budget; over-budget histories are counted as unknown"},
 	})
